@@ -34,6 +34,12 @@ func Index(json any) any {
 	for _, nn := range nodes {
 		n := nn.(types.ObjectMap)
 		id := n["@id"].(string)
+		// a property written with an empty list of values states nothing: the node is the one without the key
+		for key, value := range n {
+			if values, isList := value.([]any); isList && len(values) == 0 {
+				delete(n, key)
+			}
+		}
 		classes := n["@type"]
 		nodeIndex[id] = n
 		switch cc := classes.(type) {
